@@ -124,7 +124,18 @@ fn exec_c11(p: &Profile, cfg: &RunCfg) -> (RunOut, MonOut) {
 }
 fn exec_c12(p: &Profile, cfg: &RunCfg) -> (RunOut, MonOut) {
     let (out, _w, _s) = run_sm(p, cfg);
-    let mon = c12::monitor(&out);
+    let mut mon = c12::monitor(&out);
+    // "... or an on-demand request arrives": the converse of R3 is C11's trigger rule (an on-demand
+    // request answered inside a reboot wait puts the reboot question); it is evaluated here too
+    let c11m = c11::monitor(&out);
+    for v in c11m.violations {
+        if v.detail.contains("answered without the reboot question being put") {
+            mon.violations.push(crate::mon::Violation { prop: "C12".into(), rule: "C12.R3".into(), site: v.site, detail: v.detail });
+        }
+    }
+    if let Some(n) = c11m.counters.get("R4.on_demand_triggers_question") {
+        mon.count_n("R3.on_demand_requests_during_a_reboot_wait", *n);
+    }
     (out, mon)
 }
 
@@ -568,7 +579,7 @@ fn c10_batches(tier: &str) -> Vec<Batch> {
         user: 20,
         drop_response: 30,
         status: 80,
-        body_garbage: 0,
+        body_garbage: 60,
         body_bitflip: 0,
         body_truncate: 0,
         etag_tamper: 50,
@@ -604,6 +615,9 @@ fn c13_batches(tier: &str) -> Vec<Batch> {
     p.installer.max_progress = 6;
     p.installer.cancel_progress_permille = 150;
     p.installer.concurrent_progress_permille = 150;
+    p.observer_reads_storage_permille = 150;
+    p.disk.slow = 150;
+    p.net.retry_after = 250;
     p.neighbour_permille = 300;
     p.srv.app_outcome = [25, 65, 4, 3, 3];
     p.drop_stream_permille = 0;
@@ -679,6 +693,9 @@ pub fn c09_profile() -> Profile {
     p.srv.cohort_field = [34, 33, 33];
     p.srv.daystart = [20, 15, 25, 40];
     p.wall_init = [1, 0, 0, 0];
+    // the embedder changes an app's channel hint through the shared app set, also while a check is under way
+    p.neighbour_permille = 400;
+    p.neighbour_mutates_permille = 700;
     p
 }
 
@@ -772,6 +789,9 @@ pub fn c06_profile() -> Profile {
     p.neighbour_permille = 400;
     p.neighbour_mutates_permille = 800;
     p.net.outage_permille = 40;
+    // the wall clock is stepped while attempts are in flight (the response-time samples are monotonic)
+    p.clock_jump_permille = 300;
+    p.clock_classes = [2, 3, 0, 1, 0];
     p
 }
 
